@@ -91,6 +91,12 @@ pub fn run_all<P: Send + Sync + 'static>(paths: Vec<PathRec<P>>, run: Runner<P>,
     let result_file = arg_val(args, "--result");
     let threads: usize = arg_val(args, "--threads").and_then(|s| s.parse().ok()).unwrap_or(4);
     let obs_sample: u64 = arg_val(args, "--obs-sample").and_then(|s| s.parse().ok()).unwrap_or(0);
+    // --skip a,b,c: paths known to take the whole process down (the controller found them with --progress)
+    let skip: Vec<u64> = arg_val(args, "--skip").map(|s| s.split(',').filter_map(|x| x.parse().ok()).collect()).unwrap_or_default();
+    let paths: Vec<_> = paths.into_iter().filter(|p| !skip.contains(&p.id)).collect();
+    // --progress FILE: "S id" before a path is executed, "E id" after: what was in flight if the process dies
+    let progress: Option<Arc<Mutex<std::fs::File>>> =
+        arg_val(args, "--progress").and_then(|f| std::fs::OpenOptions::new().create(true).append(true).open(f).ok()).map(|f| Arc::new(Mutex::new(f)));
     let paths = Arc::new(paths);
     let next = Arc::new(AtomicUsize::new(0));
     let results = Arc::new(Mutex::new(Vec::new()));
@@ -100,17 +106,26 @@ pub fn run_all<P: Send + Sync + 'static>(paths: Vec<PathRec<P>>, run: Runner<P>,
     for _ in 0..threads.max(1) {
         let (paths, next, results, obs_out, run) = (paths.clone(), next.clone(), results.clone(), obs_out.clone(), run.clone());
         let want_obs = obs_file.is_some();
+        let progress = progress.clone();
+        let mark = move |tag: &str, id: u64| {
+            if let Some(f) = &progress {
+                use std::io::Write;
+                let _ = f.lock().unwrap().write_all(format!("{} {}\n", tag, id).as_bytes());
+            }
+        };
         hs.push(std::thread::spawn(move || loop {
             let i = next.fetch_add(1, Ordering::SeqCst);
             if i >= paths.len() {
                 break;
             }
+            mark("S", paths[i].id);
             let sampled = obs_sample > 0 && (paths[i].id % obs_sample == 0);
             let (r, lines) = run(&paths[i], want_obs);
             if want_obs && (!r.conform || sampled) {
                 obs_out.lock().unwrap().push((paths[i].id, lines));
             }
             results.lock().unwrap().push(r);
+            mark("E", paths[i].id);
         }));
     }
     for h in hs {
